@@ -402,6 +402,46 @@ def _post_order_closure(prog, f, lf, target, verb):
                 applied = True
     if not applied:
         return False, 'the walk is not applied to every class'
+    # the name → declaration table the walk resolves base names with holds *every* class declaration (generic templates too: a
+    # class deriving from Wrapped<int> reaches the template's own base only through the template's entry)
+    tables = {}
+    for v in SX.walk(f.body, into_lambdas=False):
+        if v['k'] == 'var' and 'map<' in (v.get('type') or '') and 'ClassDeclaration' in (v.get('type') or ''):
+            tables[v['id']] = v
+    used = {x.get('id') for x in SX.walk(lf.body) if x['k'] == 'ref' and x.get('id') in tables}
+    gf = prog.cfg(f)
+    for tid in used:
+        okt = False
+        for lp in SX.walk(f.body, into_lambdas=False):
+            if not (lp['k'] == 'forrange' and _program_collection(lp['range']) == 'classes'):
+                continue
+            ins = [c for c in gf.nodes if c.kind in ('call', 'assign') and SX.is_node(c.e) and any(y is c.e for y in SX.walk(lp['body'])) and (
+                (c.e.get('k') == 'mcall' and SX.short(c.e.get('callee', '')) in ('emplace', 'insert', 'try_emplace', 'insert_or_assign') and SX.strip(c.e.get('obj')).get('id') == tid) or
+                (SX.write_target(c.e) and SX.is_node(SX.strip(SX.write_target(c.e)[0])) and SX.strip(SX.write_target(c.e)[0]).get('k') == 'index' and
+                 SX.strip(SX.strip(SX.write_target(c.e)[0])['base']).get('id') == tid))]
+            if not ins:
+                continue
+            head = [n for n in gf.nodes if n.kind == 'loophead' and n.e is lp]
+            body0 = [n for n in gf.nodes if n.kind == 'decl' and n.e is lp['var']]
+            if not head or not body0:
+                continue
+            vid = lp['var'].get('id')
+            nulls = []
+            for e_ in gf.nodes:
+                if e_.kind == 'edge' and any(y is e_.e for y in SX.walk(lp['body'])):
+                    c_ = SX.strip(e_.e)
+                    neg = False
+                    while SX.is_node(c_) and c_.get('k') == 'un' and c_.get('op') == '!':
+                        c_, neg = SX.strip(c_['e']), not neg
+                    if SX.is_node(c_) and c_.get('k') in ('mcall', 'opcall') and 'operator bool' in (SX.callee(c_) or ''):
+                        c_ = SX.strip(c_.get('obj') or (c_.get('args') or [None])[0])
+                    if SX.is_node(c_) and c_.get('k') == 'ref' and c_.get('id') == vid and (e_.pol == neg):
+                        nulls.append(e_)      # the edge on which the class pointer is null
+            r = gf.reachable(body0, avoid=ins + nulls)
+            if head[0].id not in r and gf.exit.id not in r:
+                okt = True
+        if not okt:
+            return False, 'the table %s the walk resolves base names with is not filled for every class declaration (an entry is skipped for some classes, e.g. generic templates): a class whose base chain passes through a skipped class is laid out before its bases' % tables[tid].get('name')
     return True, '%s by a post-order walk over base links applied to every class' % verb
 
 
